@@ -18,6 +18,7 @@ package runtime
 
 import (
 	"context"
+	"sync"
 
 	corev1 "k8s.io/api/core/v1"
 	"k8s.io/klog/v2"
@@ -40,6 +41,8 @@ type evictorProxy struct {
 	dryRun          bool
 	evictionLimiter EvictionLimiter
 	handle          *frameworkImpl
+	// evictLock serializes Evict so that AllowEvict and Done act as one atomic check-and-count
+	evictLock sync.Mutex
 }
 
 func (e *evictorProxy) Reset() {
@@ -99,6 +102,8 @@ func (e *evictorProxy) Evict(ctx context.Context, pod *corev1.Pod, opts framewor
 	if len(e.handle.evictPlugins) == 0 {
 		panic("No Evictor plugin is registered in the frameworkImpl.")
 	}
+	e.evictLock.Lock()
+	defer e.evictLock.Unlock()
 	if !e.AllowEvict(pod) {
 		return false
 	}
